@@ -37,6 +37,11 @@ ASSUMPTIONS = [
     "user criteria used for the default search are monotone (their certainty equivalent lies between worst and best outcome)",
     "pricing models are deterministic, so portfolio and payoff can be recomputed from the last simulation",
 ]
+ANCHORS = ['pfhedge.nn.modules.loss:HedgeLoss.cash',
+           'pfhedge.nn.modules.loss:EntropicLoss.cash',
+           'pfhedge.nn.modules.hedger:Hedger.price',
+           'pfhedge._utils.operations:ensemble_mean']
+PYTEST_WORKLOAD = True  # thorough tier also runs /repo/tests with these passive monitors attached (DESIGN.md 2.7)
 DECIDING = ["cash.equivalent", "cash.bounds", "cash.qcvar_is_minus_risk", "price.is_minus_cash", "price.shift_equivariant", "price.entropic_equals_loss"]
 REQUIRED_BRANCHES = ["cash.default_search", "cash.closed_form", "cash.target_tensor", "cash.multi_column", "cash.constant_sample",
                      "price.clauses", "price.n_times>1"]
